@@ -382,6 +382,11 @@ val sgn_eqb : z option option -> z option option -> bool
 
 val key_eq : key -> key -> bool
 
+type pyconst =
+| CScalar of scalar
+| CSeq of ntype * pyconst list
+| CSlice of pyconst * pyconst * pyconst
+
 val leaf_okb : ntype -> scalar -> bool
 
 val mult_okb : cnode option -> bool
@@ -398,6 +403,24 @@ type topnode =
 val top_key : bool -> bool -> topnode -> key option
 
 val wf_top : topnode -> bool
+
+val py_eq : pyconst -> pyconst -> bool
+
+val key_value : key -> pyconst
+
+val first_by : ('a1 -> pyconst) -> pyconst list -> 'a1 list -> 'a1 list
+
+val has_mult : cnode -> bool
+
+val frozen_key : bool -> bool -> cnode list -> key option
+
+val top_key2 : bool -> bool -> topnode -> key option
+
+val hashable : cnode -> bool
+
+val wf_top2 : topnode -> bool
+
+val top_has_mult : topnode -> bool
 
 type binop =
 | OAdd
